@@ -1,0 +1,54 @@
+//go:build verif
+// +build verif
+
+package main
+
+// Verification hook (build tag "verif"): protocol trace of run_simulation.
+// One line per event, "VT <event> <gen>", appended to the file named by
+// $VERIF_TRACE (or written to stderr when the variable is unset).  The mutex
+// gives the lines a total order; every line is written after the action it
+// reports has completed.
+//
+// $VERIF_JITTER_US=<n> (optional, testing only): after logging an event the
+// calling goroutine sleeps a pseudo-random time in [0,n) microseconds (seeded
+// by $VERIF_JITTER_SEED) so that different interleavings of main, the writer
+// goroutines and link processing are exercised.
+
+import (
+	"fmt"
+	"math/rand"
+	"os"
+	"strconv"
+	"sync"
+	"time"
+)
+
+var verifTraceMu sync.Mutex
+var verifTraceFile *os.File
+var verifJitterUs int
+var verifRand *rand.Rand
+
+func verifTrace(event string, gen int) {
+	verifTraceMu.Lock()
+	if verifTraceFile == nil {
+		verifTraceFile = os.Stderr
+		if fn := os.Getenv("VERIF_TRACE"); fn != "" {
+			f, err := os.OpenFile(fn, os.O_APPEND|os.O_CREATE|os.O_WRONLY, 0644)
+			if err == nil {
+				verifTraceFile = f
+			}
+		}
+		verifJitterUs, _ = strconv.Atoi(os.Getenv("VERIF_JITTER_US"))
+		seed, _ := strconv.Atoi(os.Getenv("VERIF_JITTER_SEED"))
+		verifRand = rand.New(rand.NewSource(int64(seed)))
+	}
+	fmt.Fprintf(verifTraceFile, "VT %s %d\n", event, gen)
+	d := 0
+	if verifJitterUs > 0 {
+		d = verifRand.Intn(verifJitterUs)
+	}
+	verifTraceMu.Unlock()
+	if d > 0 {
+		time.Sleep(time.Duration(d) * time.Microsecond)
+	}
+}
